@@ -56,6 +56,7 @@ type FuncContract struct {
 }
 
 type GhostVar struct {
+	StableOnReturn bool
 	Mono bool
 	Name string
 	Type string
@@ -107,7 +108,7 @@ type Contracts struct {
 	Errors []string
 }
 
-var clauseRe = regexp.MustCompile(`^(requires|ensures|xensures|invariant|decreases|assert|assume|modifies|trusted|pure|inline|noinline|nullable|maypanic|nopanic|let|set|init|specialize)\b(\[[A-Za-z0-9, ]*\])?\s*(.*)$`)
+var clauseRe = regexp.MustCompile(`^(requires|ensures|xensures|invariant|decreases|assert|assume|modifies|trusted|pure|inline|noinline|nullable|maypanic|nopanic|let|set|init|specialize|assign)\b(\[[A-Za-z0-9, ]*\])?\s*(.*)$`)
 var topRe = regexp.MustCompile(`^(func|ghost|spec|axiom|lemma|iface|only)\b(\[[A-Za-z0-9, ]*\])?\s*(.*)$`)
 
 func parseProps(s string) []string {
@@ -238,6 +239,11 @@ func (cs *Contracts) parseFile(fname, pkg, prefix string) {
 				if strings.HasSuffix(tail, " nondecreasing") {
 					g.Mono = true
 					tail = strings.TrimSpace(strings.TrimSuffix(tail, " nondecreasing"))
+				}
+				if strings.HasSuffix(tail, " stable-on-return") {
+					// unchanged whenever a call returns normally, unless the callee can recover a panic
+					g.StableOnReturn = true
+					tail = strings.TrimSpace(strings.TrimSuffix(tail, " stable-on-return"))
 				}
 				g.Type = tail
 				if old, ok := cs.Ghosts[g.Name]; ok && old.Type != g.Type {
@@ -406,7 +412,7 @@ func (cs *Contracts) parseFile(fname, pkg, prefix string) {
 			} else {
 				cur.Decr = append(cur.Decr, c)
 			}
-		case "assert", "assume":
+		case "assert", "assume", "assign":
 			// assert at "source text"#k EXPR   |  assert call NAME#k EXPR
 			r := rest
 			if strings.HasPrefix(r, "at ") {
@@ -433,6 +439,16 @@ func (cs *Contracts) parseFile(fname, pkg, prefix string) {
 					c.Label = r[1:i]
 					r = strings.TrimSpace(r[i:])
 				}
+			}
+			if kind == "assign" {
+				// assign at "text" NAME = EXPR  (ghost assignment before the call at that site)
+				i := strings.Index(r, "=")
+				if i < 0 {
+					cs.errf(fname, l.line, "assign needs NAME = EXPR")
+					continue
+				}
+				c.Label = strings.TrimSpace(r[:i])
+				r = r[i+1:]
 			}
 			parse(r)
 			cur.Asserts = append(cur.Asserts, c)
